@@ -290,6 +290,30 @@ fn datagram_alternatives(case: &Case, chunks: &[Vec<u8>], bufsize: usize) -> Vec
     alts
 }
 
+/// close + datagram mode: a datagram that ends inside a frame may be reported as an error (the session ends there) instead
+/// of being dropped silently. True if `got` is exactly what the datagrams up to and including the first one with such
+/// an incomplete tail hold, and nothing before it is a framing error.
+fn stopped_at_truncated_datagram(chunks: &[Vec<u8>], bufsize: usize, got: &[F]) -> bool {
+    let mut frames: Vec<F> = vec![];
+    for d in chunks {
+        let d = &d[..d.len().min(bufsize)];
+        let s = rl::scan_close(d);
+        frames.extend(s.frames.iter().map(|(_, f)| from_ref(f)));
+        if s.error_at.is_some() {
+            return false;
+        }
+        let end = s
+            .frames
+            .last()
+            .map(|(at, f)| at + rl::encode(f.ctrl, f.dst, f.src, &f.payload).len())
+            .unwrap_or(0);
+        if end < d.len() {
+            return frames[..] == *got;
+        }
+    }
+    false
+}
+
 fn is_frame_error(e: &LinkError) -> bool {
     matches!(e, LinkError::BadFrame(_))
 }
@@ -339,6 +363,17 @@ impl Prop for Stream {
             &ch,
             exp.len() + 64,
         );
+        if case.datagram
+            && !case.discard
+            && is_eof(&err)
+            && (got != exp || exp_err)
+            && stopped_at_truncated_datagram(&ch, buffer_size(case.frag_size as usize), &got)
+        {
+            // the session ended at a datagram that stops in the middle of a frame: reported rather than skipped
+            out.label("truncated_datagram_ends_the_session");
+            exp = got.clone();
+            exp_err = false;
+        }
         let overlong = case.datagram
             && ch
                 .iter()
@@ -1039,6 +1074,18 @@ impl Prop for Sessions {
                     exp = f.clone();
                     exp_err = *e;
                 }
+            }
+            if case.datagram
+                && !case.discard
+                && got.len() < limit
+                && end.as_ref().map(is_eof).unwrap_or(false)
+                && (got != exp || exp_err)
+                && stopped_at_truncated_datagram(&ch, bufsize, &got)
+            {
+                // the session ended at a datagram that stops in the middle of a frame: reported rather than skipped
+                out.label("truncated_datagram_ends_the_session");
+                exp = got.clone();
+                exp_err = false;
             }
             let want: Vec<F> = exp.iter().take(limit).cloned().collect();
             if dirty && n > 0 {
